@@ -1,8 +1,181 @@
 /-
-  C05 — property theorems (being added; see tools/agent_briefs/C05.md)
+  C05 — boyd_split + raising: tokens are kept, every node produced by boyd_split is continuous,
+  one node per block, raising keeps continuity, a continuous tree is a fixpoint.
+  (see tools/agent_briefs/C05.md; helper lemmas in TT/Lemmas/Boyd.lean)
 -/
 import TT.Spec.Transform
+import TT.Lemmas.Sort
+import TT.Lemmas.Nav
+import TT.Lemmas.WF
+import TT.Lemmas.Boyd
 namespace TT.Props.C05
 open TT TT.Tree TT.Spec
+
+/-- a discontinuous example: `(S (VP (A 1) (B 3) (V 4)) (C 2))`, `V` the head of `VP`, `VP` the head
+    of `S`; storage order shuffled -/
+def exT : Tree :=
+  node { label := "S".toList }
+    [leaf 2 { label := "C".toList, head := some false },
+     node { label := "VP".toList, head := some true }
+       [leaf 3 { label := "B".toList, head := some false },
+        leaf 1 { label := "A".toList, head := some false },
+        leaf 4 { label := "V".toList, head := some true }]]
+
+/-- the result of `boyd_split` on `exT` -/
+def exSplit : Tree :=
+  match boydSplit exT with
+  | .ok t => t
+  | .error _ => exT
+
+example : WF exT = true := by decide
+example : continuous exT = false := by decide
+example : (boydSplit exT).toOption.isSome = true := by decide
+example : exT.noEmpty = true ∧ exT.leafNums.Nodup := by decide
+
+/-! ## raising only dissolves nodes: tokens stay, in the same storage order -/
+
+theorem raiseKids_leaves (ks : List Tree) : leavesL (raiseKids ks) = leavesL ks :=
+  Lemmas.Boyd.raiseKids_leaves ks
+
+theorem raising_leaves (t : Tree) : (raising t).leaves = t.leaves := by
+  cases t with
+  | leaf n f => rfl
+  | node f ks => simp only [raising, leaves]; exact raiseKids_leaves ks
+
+theorem raising_sentence (t : Tree) : sentence (raising t) = sentence t := by
+  simp only [sentence, terminals, raising_leaves]
+
+example : sentence (raising exSplit) = sentence exT := by decide
+
+/-- the constituents that survive raising are exactly the non-removable ones (root always survives) -/
+theorem raising_consLabels (f : Fields) (ks : List Tree) :
+    consLabels (raising (node f ks)) = f.label :: (subtreesL ks |>.filter (fun s => !s.isLeaf && !removable s) |>.map (·.fields.label)) := by
+  simp only [raising, consLabels]
+  rw [Lemmas.Boyd.raiseKids_consLabels]
+  rfl
+
+example : consLabels (raising exSplit) = ["S".toList, "VP".toList] := by decide
+
+/-! ## boyd_split keeps the tokens -/
+
+theorem boydKids_leafNums (ks ks' : List Tree) (h : boydKids ks = .ok ks') :
+    (ks'.flatMap leafNums).Perm (ks.flatMap leafNums) :=
+  Lemmas.Boyd.boydKids_leafNums ks ks' h
+
+/-- (the brief's placeholder name for `boydKids_leafNums`) -/
+theorem boydKids_leaves (ks ks' : List Tree) (h : boydKids ks = .ok ks') :
+    (ks'.flatMap leafNums).Perm (ks.flatMap leafNums) :=
+  boydKids_leafNums ks ks' h
+
+theorem boydNode_leafNums (t : Tree) (r : List Tree) (h : boydNode t = .ok r) : (r.flatMap leafNums).Perm t.leafNums :=
+  Lemmas.Boyd.boydNode_leafNums t r h
+
+/-- `boydSplit` succeeds exactly when `boydNode` returns a single node -/
+theorem boydSplit_ok (t t' : Tree) (h : boydSplit t = .ok t') : boydNode t = .ok [t'] := by
+  unfold boydSplit at h
+  split at h
+  · simp at h
+  · rename_i t'' heq
+    simp only [Except.ok.injEq] at h
+    subst h; exact heq
+  · simp at h
+
+theorem boydSplit_leafNums (t t' : Tree) (h : boydSplit t = .ok t') : t'.leafNums.Perm t.leafNums := by
+  simpa using boydNode_leafNums t [t'] (boydSplit_ok t t' h)
+
+theorem boydSplit_words (t t' : Tree) (h : boydSplit t = .ok t') :
+    (t'.leaves.map fun l => (l.num, l.fields.word, l.fields.label)).Perm (t.leaves.map fun l => (l.num, l.fields.word, l.fields.label)) := by
+  simpa [Lemmas.Boyd.toksL, Lemmas.Boyd.tok] using
+    Lemmas.Boyd.boydNode_toks t [t'] (boydSplit_ok t t' h)
+
+theorem boydSplit_sentence (t t' : Tree) (h : boydSplit t = .ok t') (hn : t.leafNums.Nodup) :
+    (t'.terminals.map fun l => (l.fields.word, l.fields.label)) = (t.terminals.map fun l => (l.fields.word, l.fields.label)) := by
+  have hp := boydSplit_words t t' h
+  have hd : ((t'.leaves.map fun l => (l.num, l.fields.word, l.fields.label)).map (·.1)).Nodup := by
+    have : (t'.leaves.map fun l => (l.num, l.fields.word, l.fields.label)).map (·.1) = t'.leafNums := by
+      simp [leafNums, Function.comp_def]
+    rw [this]
+    exact (boydSplit_leafNums t t' h).symm.nodup hn
+  have hs := sortBy_perm_eq (fun (x : Nat × Option Str × Str) => x.1) _ _ hp hd
+  rw [sortBy_map num (fun (x : Nat × Option Str × Str) => x.1) _ (fun _ => rfl),
+    sortBy_map num (fun (x : Nat × Option Str × Str) => x.1) _ (fun _ => rfl)] at hs
+  have := congrArg (List.map fun (x : Nat × Option Str × Str) => x.2) hs
+  simpa [terminals, Function.comp_def] using this
+
+example : sentence exSplit = sentence exT := by decide
+
+/-! ## every node produced by boyd_split is continuous; one node per block -/
+
+/-- every node produced by boyd_split is continuous (children of a well-formed tree processed first) -/
+theorem boydNode_continuous (t : Tree) (r : List Tree) (h : boydNode t = .ok r) (hwf : t.noEmpty = true) (hn : t.leafNums.Nodup) :
+    ∀ x ∈ r, continuous x = true :=
+  fun x hx => (Lemmas.Boyd.boydNode_good t r h hwf hn x hx).1
+
+theorem boydSplit_continuous (t t' : Tree) (h : boydSplit t = .ok t') (hwf : WF t = true) : continuous t' = true :=
+  boydNode_continuous t [t'] (boydSplit_ok t t' h) (Lemmas.WF.WF_noEmpty t hwf)
+    (Lemmas.WF.WF_nodup t hwf) t' List.mem_cons_self
+
+example : continuous exSplit = true := by decide
+
+/-- one node per block, in block order -/
+theorem boydNode_blocks (f : Fields) (ks : List Tree) (r : List Tree) (h : boydNode (node f ks) = .ok r)
+    (hwf : (node f ks).noEmpty = true) (hn : (node f ks).leafNums.Nodup) :
+    r.map yield = blocks (node f ks) ∧ ∀ x ∈ r, x.fields.label = f.label := by
+  rw [Lemmas.Boyd.boydNode_node] at h
+  cases hk : boydKids ks with
+  | error e => simp [hk] at h
+  | ok ks' =>
+    simp only [hk] at h
+    simp only [noEmpty, Bool.and_eq_true, Bool.not_eq_true', List.isEmpty_eq_false_iff] at hwf
+    rw [Lemmas.Boyd.leafNums_node] at hn
+    have hgood := Lemmas.Boyd.boydKids_good ks ks' hk hwf.2 hn
+    obtain ⟨hn', hne'⟩ := Lemmas.Boyd.kids_ready ks ks' hk hwf.2 hwf.1 hn
+    obtain ⟨_, hy, hl⟩ := Lemmas.Boyd.boydStep_spec f ks' r h hgood hn' hne'
+    refine ⟨?_, hl⟩
+    rw [hy, blocks, Lemmas.Boyd.yield_node,
+      Lemmas.Boyd.sortBy_id_congr (Lemmas.Boyd.boydKids_leafNums ks ks' hk)]
+
+/-- the `VP` of `exT` has the blocks `[1]` and `[3, 4]` and is replaced by two `VP` nodes -/
+example : (match exT with
+    | node _ [_, vp] => (match boydNode vp with
+      | .ok r => r.map yield == blocks vp && r.map (·.fields.label) == ["VP".toList, "VP".toList]
+      | .error _ => false)
+    | _ => false) = true := by decide
+
+/-! ## raising -/
+
+/-- raising keeps the yield of every surviving node, hence continuity -/
+theorem raising_continuous (t : Tree) (h : continuous t = true) : continuous (raising t) = true :=
+  Lemmas.Boyd.raising_cont t h
+
+/-- raising a split tree gives a continuous tree -/
+theorem raise_continuous (t t' : Tree) (h : boydSplit t = .ok t') (hwf : WF t = true) : continuous (raising t') = true :=
+  raising_continuous t' (boydSplit_continuous t t' h hwf)
+
+example : continuous (raising exSplit) = true := by decide
+
+/-- on a continuous tree `boyd_split` only sets the flags and `raising` does nothing -/
+theorem continuous_fixpoint_strong (t t' : Tree) (h : boydSplit t = .ok t') (hwf : WF t = true) (hc : continuous t = true) :
+    raising t' = t' ∧ stripT t' = stripT t := by
+  obtain ⟨t'', hr, hs, _, hra⟩ := Lemmas.Boyd.boydNode_fix t [t'] (boydSplit_ok t t' h) hc
+    (Lemmas.WF.WF_noEmpty t hwf) (Lemmas.WF.WF_nodup t hwf)
+  simp only [List.cons.injEq, and_true] at hr
+  subst hr
+  exact ⟨hra, hs⟩
+
+/-- an already continuous tree comes back unchanged (up to storage order and the split flags) -/
+theorem continuous_fixpoint (t t' : Tree) (h : boydSplit t = .ok t') (hwf : WF t = true) (hc : continuous t = true) :
+    sortKids (stripT (raising t')) = sortKids (stripT t) := by
+  obtain ⟨h1, h2⟩ := continuous_fixpoint_strong t t' h hwf hc
+  rw [h1, h2]
+
+/-- a continuous example: `(S (A 1) (VP (B 2) (V 3)))` -/
+def exC : Tree :=
+  node { label := "S".toList }
+    [node { label := "VP".toList, head := some true }
+       [leaf 3 { label := "V".toList, head := some true }, leaf 2 { label := "B".toList, head := some false }],
+     leaf 1 { label := "A".toList, head := some false }]
+
+example : WF exC = true ∧ continuous exC = true ∧ (boydSplit exC).toOption.isSome = true := by decide
 
 end TT.Props.C05
